@@ -1,0 +1,23 @@
+//go:build verif
+// +build verif
+
+package edwards25519
+
+// Hooks for the verification harness (/verif). Built only with -tags verif.
+
+// VerifScMulAdd is scMulAdd: s = a*b + c mod l on 32-byte little-endian operands.
+func VerifScMulAdd(a, b, c [32]byte) (s [32]byte) {
+	scMulAdd(&s, &a, &b, &c)
+	return
+}
+
+// VerifScReduce is scReduce: the 64-byte little-endian input modulo l.
+func VerifScReduce(in [64]byte) (out [32]byte) {
+	scReduce(&out, &in)
+	return
+}
+
+// VerifScMul / VerifScAdd / VerifScSub on raw (possibly unreduced) 32-byte operands.
+func VerifScMul(a, b [32]byte) (s [32]byte) { scMul(&s, &a, &b); return }
+func VerifScAdd(a, c [32]byte) (s [32]byte) { scAdd(&s, &a, &c); return }
+func VerifScSub(a, c [32]byte) (s [32]byte) { scSub(&s, &a, &c); return }
